@@ -72,9 +72,9 @@ NearestF32(x, y) ==
     ELSE DLe(DShl(DAbs(DSub(y, x)), 1), DPow2(Ulp32Exp(x)))   \* |y-x| <= ulp/2
 
 (* ---- C16: bit-depth arithmetic ---------------------------------------------------- *)
-MaxS(b) == ZSub(ZPow2(b - 1), Z1)
-MinS(b) == ZNeg(ZPow2(b - 1))
-MaxU(b) == ZSub(ZPow2(b), Z1)
+MaxS(b) == IF b = 0 THEN Z0 ELSE ZSub(ZPow2(b - 1), Z1)     \* depth 0 (documented: all bounds are zero)
+MinS(b) == IF b = 0 THEN Z0 ELSE ZNeg(ZPow2(b - 1))
+MaxU(b) == IF b = 0 THEN Z0 ELSE ZSub(ZPow2(b), Z1)
 ClipTo(lo, hi, x) == IF ZLt(x, lo) THEN lo ELSE IF ZLt(hi, x) THEN hi ELSE x
 
 (* ---- C17: frequency ------------------------------------------------------------------ *)
